@@ -82,7 +82,10 @@ impl SignatureConverter<'_> {
                         })
                     )
                 })
-        })
+        }) || crate::analyze_generics::relaxed_in_where_clause(
+            deps_param,
+            &self.input_sig.generics,
+        )
     }
 
     fn detect_receiver_generation(&self, sig: &syn::Signature) -> ReceiverGeneration {
